@@ -18,15 +18,16 @@
    theorems), and for every designed string that fits the arrays the records written by the designer
    satisfy the hypotheses of the finish-side theorem - so finishing against the compiled component
    succeeds (EndToEnd), and by C06_concatenations its result has every strand and super-sequence the
-   concatenation of its base sequences' values.  Hypothesis: the record names are distinct (no sequence
-   name ends in '*'; a structure and a sequence never share a name since the D13 repair).
+   concatenation of its base sequences' values.  The hypothesis of these theorems that the record names
+   are distinct is itself proved (C06_record_names_distinct) for programs whose sequence and structure names contain
+   no '*' - the statement grammar yields [\w-]+ -, giving the ..._unconditional forms.
    The composition holds in the structure layout as well (C06_compiled_design_finishes_struct), and for whole
    nested systems the designer side is proved: what the compiler writes loads and gets arrays or the report
    (C06_compiled_system_designs).  NOT proved: the finish side through nested systems and the saved state (.save);
    exercised end to end (in-process, through the three command-line tools and through design()). *)
 From Coq Require Import List String Ascii Arith Bool.
 From PC Require Import Base.Codes Comp.Syntax Comp.Compile Comp.Denote Comp.EmitProofs Sys.System Finish.Apply Finish.ApplyProofs Design.ShapeProofs Design.ComposeProofs
-  Design.Designer Design.TemplateProofs Design.DGraph Design.DenoteGraph Design.DenoteTie Design.DenoteSat Design.Results Design.ResultsProofs Design.Loaded Design.LoadedStruct Design.CrossProofs Design.EndToEnd Base.Sexp Comp.WfPil Sys.System Sys.SysWfPil Sys.SysDesign.
+  Design.Designer Design.TemplateProofs Design.DGraph Design.DenoteGraph Design.DenoteTie Design.DenoteSat Design.Results Design.ResultsProofs Design.Loaded Design.LoadedStruct Design.CrossProofs Design.EndToEnd Base.Sexp Comp.WfPil Comp.NameProofs Sys.System Sys.SysWfPil Sys.SysDesign Design.RecNames Design.EndToEndNames.
 Import ListNotations.
 
 Theorem C06_finished_bases_consistent_partial : forall t prefix bs vals, base_values t prefix bs = OK vals ->
@@ -199,3 +200,30 @@ Theorem C06_compiled_system_designs : forall fs includes ctr basename args lines
   (design_arrays lines false = DOver \/ exists e w s, design_arrays lines false = DOk e w s).
 Proof. exact compiled_system_designs. Qed.
 Print Assumptions C06_compiled_system_designs.
+
+(* no hypothesis on the records: when no sequence or structure name of the program (nor the instance prefix) contains a '*' -
+   the statement grammar yields [\w-]+ - the record names are distinct, so in either layout finishing succeeds for every
+   designed string that fits the arrays *)
+Theorem C06_record_names_distinct : forall ctr prefix d body c ctr' p a recs,
+  compile_comp ctr prefix d body = OK (c, ctr') -> (forall st, In st body -> stmt_nostar st) -> nostar prefix ->
+  load_spec (emit_comp c) pspec0 = OK p -> output_records p a = OK recs -> NoDup (map fst recs).
+Proof. exact compiled_records_distinct. Qed.
+Print Assumptions C06_record_names_distinct.
+
+Theorem C06_compiled_design_finishes_unconditional : forall ctr prefix d body c ctr' p lay g e w s nts (so : bool),
+  compile_comp ctr prefix d body = OK (c, ctr') -> (forall st, In st body -> stmt_nostar st) -> nostar prefix ->
+  load_spec (emit_comp c) pspec0 = OK p -> seed p so = OK (lay, g) -> get_constraints p so = DOk e w s -> fits nts e w ->
+  exists a recs, process_results p lay nts = OK a /\ output_records p a = OK recs /\ exists f, apply_comp (table_of recs) c = OK f.
+Proof. exact compiled_design_finishes_names. Qed.
+Print Assumptions C06_compiled_design_finishes_unconditional.
+
+Theorem C06_compiled_component_end_to_end_unconditional : forall ctr prefix d body c ctr',
+  compile_comp ctr prefix d body = OK (c, ctr') -> (forall st, In st body -> stmt_nostar st) -> nostar prefix ->
+  (forall n b, In (n, b) (c_bases c) -> valid_template (b_const b) = true) ->
+  exists p lay g, load_spec (emit_comp c) pspec0 = OK p /\ seed p false = OK (lay, g) /\
+    (get_constraints p false = DOver \/
+     exists e w s, get_constraints p false = DOk e w s /\
+       forall nts, fits nts e w ->
+         exists a recs, process_results p lay nts = OK a /\ output_records p a = OK recs /\ exists f, apply_comp (table_of recs) c = OK f).
+Proof. exact compiled_component_end_to_end_names. Qed.
+Print Assumptions C06_compiled_component_end_to_end_unconditional.
